@@ -1,4 +1,4 @@
-From Coq Require Import Lia.
+From Coq Require Import Lia ZArith.
 From CDD Require Import PyStr Doctrans.
 Open Scope N_scope.
 
@@ -59,3 +59,65 @@ Proof.
   - reflexivity.
   - rewrite IH by lia. rewrite app_assoc. reflexivity.
 Qed.
+
+(* ---- return-type edits of a def header ---- *)
+Lemma lstrip_suffix : forall y, exists t, y = t ++ lstrip y.
+Proof.
+  induction y as [|c r [t IH]]; [exists []; reflexivity|]. cbn [lstrip]. destruct (is_space c).
+  - exists (c :: t). cbn. rewrite <- IH. reflexivity.
+  - exists []. reflexivity.
+Qed.
+Lemma rstrip_prefix x : exists t, x = rstrip x ++ t.
+Proof.
+  unfold rstrip. destruct (lstrip_suffix (rev x)) as [t E]. exists (rev t).
+  rewrite <- rev_app_distr, <- E, rev_involutive. reflexivity.
+Qed.
+Lemma slice_to_prefix s b : exists t, s = slice_to s b ++ t.
+Proof.
+  unfold slice_to, slice. replace (norm_idx (slen s) 0) with 0%Z by (unfold norm_idx, slen; change (0 <? 0)%Z with false; cbv iota; symmetry; apply Z.min_l; lia).
+  cbn [Z.to_nat skipn]. eexists. symmetry. apply firstn_skipn.
+Qed.
+
+(* removing the return annotation keeps a prefix of the header, puts one colon after it and drops the rest *)
+Theorem remove_return_typ_shape s : exists p t, remove_return_typ s = p ++ s2l ":" /\ s = p ++ t.
+Proof.
+  unfold remove_return_typ. destruct (slice_to_prefix s (rfind (s2l "->") s)) as [t1 E1].
+  destruct (rstrip_prefix (slice_to s (rfind (s2l "->") s))) as [t2 E2].
+  exists (rstrip (slice_to s (rfind (s2l "->") s))), (t2 ++ t1). split; [reflexivity|].
+  rewrite app_assoc, <- E2. exact E1.
+Qed.
+
+Lemma rfind_last_colon h : rfind (s2l ":") (h ++ s2l ":") = slen h.
+Proof.
+  unfold rfind. rewrite rev_app_distr. cbn [s2l rev app find find_from startswith]. rewrite N.eqb_refl. cbn [andb].
+  unfold slen. rewrite app_length. cbn [length]. lia.
+Qed.
+
+Lemma slice_from_len (pre rest : str) : slice_from (pre ++ rest) (Z.of_nat (length pre)) = rest.
+Proof.
+  unfold slice_from, norm_idx, slen. rewrite app_length.
+  destruct (Z.ltb_spec (Z.of_nat (length pre)) 0); [lia|].
+  rewrite Z.min_l by lia. rewrite Nat2Z.id, skipn_app, skipn_all, Nat.sub_diag. reflexivity.
+Qed.
+Lemma slice_to_len (pre rest : str) : slice_to (pre ++ rest) (Z.of_nat (length pre)) = pre.
+Proof.
+  unfold slice_to, slice, norm_idx, slen. rewrite app_length. change (0 <? 0)%Z with false. cbv iota.
+  destruct (Z.ltb_spec (Z.of_nat (length pre)) 0); [lia|].
+  rewrite !Z.min_l by lia. rewrite Z.sub_0_r, Nat2Z.id. cbn [Z.to_nat skipn].
+  rewrite firstn_app, firstn_all, Nat.sub_diag. cbn. apply app_nil_r.
+Qed.
+
+Lemma slice_from_end (h : str) : slice_from (h ++ s2l ":") (Z.of_nat (length h) + 1) = [].
+Proof.
+  replace (Z.of_nat (length h) + 1)%Z with (Z.of_nat (length (h ++ s2l ":"))) by (rewrite app_length; cbn [length s2l]; lia).
+  rewrite <- (app_nil_r (h ++ s2l ":")) at 1. apply slice_from_len.
+Qed.
+Lemma rpartition_last h : rpartition_colon (h ++ s2l ":") = (h, s2l ":", []).
+Proof.
+  unfold rpartition_colon. rewrite rfind_last_colon. unfold slen.
+  destruct (Z.of_nat (length h)) eqn:E; try lia; rewrite <- E, (slice_to_len h (s2l ":")), slice_from_end; reflexivity.
+Qed.
+
+(* adding one: everything before the final colon, the arrow, the type, the colon *)
+Theorem add_return_typ_spec h rt : add_return_typ (h ++ s2l ":") rt = h ++ s2l " -> " ++ rt ++ s2l ":".
+Proof. unfold add_return_typ. rewrite rpartition_last, app_nil_r. reflexivity. Qed.
